@@ -209,7 +209,8 @@ fn shadow_side(v: &View, idx: u32, role: Role, side: Side, sh: &mut Shadow) {
                         // C10: a congestion controlled packet leaves only while bytes in flight are
                         // below the window (RFC 9002 7), except probes and the one packet allowed
                         // when entering recovery
-                        if cc && *mode == 0 && !has_close && have_metrics && !cwnd_stale && !multi_path {
+                        // (normal transmissions and MTU probes; PTO probes and path validation are exempt)
+                        if cc && (*mode == 0 || *mode == 2) && !has_close && have_metrics && !cwnd_stale && !multi_path {
                             sh.sends_judged += 1;
                             if bif >= rtt_prev.cwnd && !recovery_allowance {
                                 sh.c10.push(viol(
